@@ -41,5 +41,14 @@ Fixpoint expand (l : list (op * Z)) : list op :=
   | (o, n) :: r => repeat o (Z.to_nat n) ++ expand r
   end.
 
+(* typed constructors for the literals the harness writes (a tuple inside a long list literal makes Coq's
+   elaboration quadratic; an application of a fully typed function does not) *)
+Definition so (i : Z) (c : list call) (r : opres) (t : list nat) : sobs := (i, c, r, t).
+Definition hop (o : op) (n : Z) : op * Z := (o, n).
+Definition cbk (r : craise) (ops : list op) : craise * list op := (r, ops).
+(* [n] consecutive operations i, i+1, ... with the same observation *)
+Fixpoint so_rep (n : nat) (i : Z) (c : list call) (r : opres) (t : list nat) : list sobs :=
+  match n with O => [] | S m => (i, c, r, t) :: so_rep m (i + 1) c r t end.
+
 Definition agrees (cfg : config) (h : list (op * Z)) (expected : list sobs) : bool :=
   list_eqb sobs_eqb (sparse (run cfg tl0 (expand h))) expected.
